@@ -29,6 +29,11 @@ def run(ck, replay=None):
         meta.append(("native", m, r, "cells", None))
         jobs.append(tp.native_job(exe, "mixed", ck.seed + 100 + i, n_mixed, timeout=150 if quick else 1800))
         meta.append(("native", m, r, "mixed", None))
+        # the kernel may end any futex wait early (EINTR, or a wake-up meant for an earlier user of the word):
+        # injected at the futex hook while joins really park
+        for scen in ("spurious_eintr", "spurious_wake"):
+            jobs.append(tp.native_job(exe, scen, ck.seed + 150 + i, 40 if quick else 400, timeout=150 if quick else 1800))
+            meta.append(("native", m, r, scen, None))
         # traced run: thread/exit accounting and observed orders
         log = tp.tmp_log("c05-cells")
         jobs.append(tp.sysmon_job(exe, "cells", ck.seed + 200 + i, 10 if quick else 40, log, timeout_s=90 if quick else 600))
@@ -49,7 +54,16 @@ def run(ck, replay=None):
         text = tp.filter_lines(rr["out"], "C05")
         rr2 = dict(rr, out=text)
         if how == "native":
-            if rr["rc"] is not None and rr["rc"] < 0:
+            if scen.startswith("spurious"):
+                # a join that ends because the wait returned early is named after its cause
+                cause = "EINTR" if scen == "spurious_eintr" else "spurious-futex-wake"
+                early = "@@VIOL C05/" in text or (rr["rc"] is not None and rr["rc"] < 0)
+                text = "\n".join(l for l in text.splitlines() if not l.startswith("@@VIOL"))
+                rr2 = dict(rr, out=text, rc=0 if early else rr["rc"])
+                if early:
+                    ck.violation("C05/join/returns-early-on-%s" % cause,
+                                 dict(label=label, probe_output_tail=rr["out"][-700:], exit=rr["rc"]))
+            if rr["rc"] is not None and rr["rc"] < 0 and not scen.startswith("spurious"):
                 ck.violation("C05/probe-crash/%s" % scen, dict(label=label, signal=-rr["rc"], stderr=rr["err"][-800:]))
             elif ck.consume_result(rr2, label):
                 ck.note_distinct("flavour/%s/%s/%s" % (m, "release" if r else "debug", scen))
